@@ -36,9 +36,9 @@ private:
         }
     }
     void NTT_iters(Goldilocks::Element *dst, Goldilocks::Element *src, u_int64_t size, u_int64_t offset_cols, u_int64_t ncols, u_int64_t ncols_all, u_int64_t nphase, Goldilocks::Element *aux, bool inverse, bool extend);
-    inline int intt_idx(int i, int N)
+    inline u_int64_t intt_idx(u_int64_t i, u_int64_t N)
     {
-        int ind1 = N - i;
+        u_int64_t ind1 = N - i;
         if (ind1 == N)
         {
             ind1 = 0;
@@ -151,7 +151,7 @@ public:
             delete[] r_;
         }
     }
-    inline void computeR(int N)
+    inline void computeR(u_int64_t N)
     {
         u_int64_t domainPow = log2(N);
         delete[] r;
@@ -161,7 +161,7 @@ public:
         rSize = N;
         r[0] = Goldilocks::one();
         r_[0] = powTwoInv[domainPow];
-        for (int i = 1; i < N; i++)
+        for (u_int64_t i = 1; i < N; i++)
         {
             Goldilocks::mul(r[i], r[i - 1], Goldilocks::shift());
             Goldilocks::mul(r_[i], r[i], powTwoInv[domainPow]);
